@@ -193,6 +193,17 @@ impl Sim {
         true
     }
 
+    /// due times of the forget-timers (RemoveDown) currently pending anywhere
+    pub fn pending_remove_down_times(&self) -> Vec<u128> {
+        self.queue
+            .iter()
+            .filter_map(|std::cmp::Reverse((at, _, ev))| match ev {
+                Ev::Timer { timer_nums, .. } if matches!(timer_from_nums(timer_nums), MTimer::RemoveDown(_)) => Some(*at),
+                _ => None,
+            })
+            .collect()
+    }
+
     pub fn run_until(&mut self, until: u128) {
         while self.step(until) {}
         if self.now < until {
@@ -220,12 +231,33 @@ impl Sim {
         true
     }
 
+    /// half of the formed clusters start with members that already refuted 0..2 suspicions each
+    /// (own incarnations differ from one another and from 0), as after earlier lost datagrams
+    fn incarnations_for_formation(&mut self) -> Vec<u16> {
+        let n = self.nodes.len();
+        let vary = self.g.chance(50);
+        let mut incs = vec![];
+        for i in 0..n {
+            if vary {
+                for _ in 0..self.g.below(3) {
+                    let id = self.id_of(i);
+                    let inc = self.nodes[i].inst.snapshot().incarnation as u16;
+                    self.now = 0;
+                    self.call(i, Input::ApplyMany(vec![MMember { id, inc, state: 1 }], false));
+                }
+            }
+            incs.push(self.nodes[i].inst.snapshot().incarnation as u16);
+        }
+        incs
+    }
+
     /// form a cluster quickly: everybody learns everybody through apply_many, then settle
     pub fn form_aligned(&mut self) {
         let n = self.nodes.len();
+        let incs = self.incarnations_for_formation();
         for i in 0..n {
             let others: Vec<MMember> =
-                (0..n).filter(|j| *j != i).map(|j| MMember { id: VId::new(j as u16 + 1, 0, self.nodes[j].inst.foca.identity().k, 0), inc: 0, state: 0 }).collect();
+                (0..n).filter(|j| *j != i).map(|j| MMember { id: VId::new(j as u16 + 1, 0, self.nodes[j].inst.foca.identity().k, 0), inc: incs[j], state: 0 }).collect();
             self.now = 0;
             self.call(i, Input::ApplyMany(others, false));
         }
@@ -233,9 +265,10 @@ impl Sim {
 
     pub fn form_instantly(&mut self) {
         let n = self.nodes.len();
+        let incs = self.incarnations_for_formation();
         for i in 0..n {
             let others: Vec<MMember> =
-                (0..n).filter(|j| *j != i).map(|j| MMember { id: VId::new(j as u16 + 1, 0, self.nodes[j].inst.foca.identity().k, 0), inc: 0, state: 0 }).collect();
+                (0..n).filter(|j| *j != i).map(|j| MMember { id: VId::new(j as u16 + 1, 0, self.nodes[j].inst.foca.identity().k, 0), inc: incs[j], state: 0 }).collect();
             // stagger the start of the probe loops
             let at = self.g.below(1000) as u128 * MS;
             self.now = at;
